@@ -27,11 +27,17 @@ func TestReplay(t *testing.T) { h.Replay(t) }
 //   full  = 1: the observer also prints user variables, arrays and rand()
 const program = `
 function observe(tag,   k, n) {
+  # header names first: the getline from "r0" below reads that file's first line as a header row in header mode
+  if (hdr) {
+    # in BEGIN no header row has been read yet: @"name" is an error there on a fresh interpreter, which would end
+    # every header-mode run before it reads anything; FIELDS must simply be empty
+    if (tag ~ /^B/) printf "%s fields n=%d\n", tag, length(FIELDS)
+    else printf "%s header <%s> <%s> n=%d\n", tag, @"b", @"zz", length(FIELDS)
+  }
   printf "%s NR=%s FNR=%s NF=%s $0=<%s> $1=<%s> FILENAME=<%s> RSTART=%s RLENGTH=%s\n", tag, NR, FNR, NF, $0, $1, FILENAME, RSTART, RLENGTH
   printf "%s seps FS=<%s> OFS=<%s> ORS=<%s> SUBSEP=<%s> CONVFMT=<%s> OFMT=<%s> INPUTMODE=<%s> OUTPUTMODE=<%s> ARGC=%s\n", tag, FS, OFS, (ORS == "\n" ? "nl" : ORS), (SUBSEP == "\034" ? "dflt" : SUBSEP), CONVFMT, OFMT, INPUTMODE, OUTPUTMODE, ARGC
   printf "%s io w0:%d r0:%d %s %s c:%s,%s\n", tag, (getline probe_line < "r0"), 0, probe_line, sprintf("%c", 233), close("w0"), close("nosuch")
   print "marker" > "w1"
-  if (hdr) printf "%s header <%s> <%s> n=%d\n", tag, @"b", @"zz", length(FIELDS)
   if (full) {
     n = 0; for (k in arr) n++
     printf "%s vars g=<%s> s=<%s> n=%d arr1=<%s> r=%d fmt=%s RT=<%s> ARGV1=<%s> ARGV3=<%s> E=<%s>\n", tag, g, s, n, arr[1], int(rand() * 1000), 1 / 3, RT, ARGV[1], ARGV[3], ENVIRON["E"]
